@@ -16,6 +16,7 @@ class GSpec:
         self.terms = terms
         self.layout = layout          # optional extra text for LAYOUT rules
         self.meta = meta or {}        # production meta per rule index: "{left, 5}"
+        self.exhaustive = False       # member of a deterministic (seed-independent) scope
 
     def nonterminals(self):
         out = []
@@ -49,13 +50,17 @@ class GSpec:
     def to_json(self):
         return {"rules": [[l, list(r)] for l, r in self.rules],
                 "terms": {k: list(v) for k, v in self.terms.items()},
-                "layout": self.layout, "meta": {str(k): v for k, v in self.meta.items()}}
+                "layout": self.layout, "meta": {str(k): v for k, v in self.meta.items()},
+                "exh": self.exhaustive, "corpus_inputs": getattr(self, "corpus_inputs", [])}
 
     @staticmethod
     def from_json(d):
-        return GSpec([(l, list(r)) for l, r in d["rules"]],
-                     {k: tuple(v) for k, v in d["terms"].items()},
-                     d.get("layout"), {int(k): v for k, v in (d.get("meta") or {}).items()})
+        s = GSpec([(l, list(r)) for l, r in d["rules"]],
+                  {k: tuple(v) for k, v in d["terms"].items()},
+                  d.get("layout"), {int(k): v for k, v in (d.get("meta") or {}).items()})
+        s.exhaustive = bool(d.get("exh"))
+        s.corpus_inputs = list(d.get("corpus_inputs") or [])
+        return s
 
 
 # ---- analysis of specs (only used to *select* cases, never as an oracle) ----
